@@ -277,3 +277,77 @@ def _mk_callee(L):
 for _L in range(5):
     group(["C04"], "amp.stage/callee/L=%d" % _L, ["breit_wigner:BWR", "breit_wigner:Gamma", "breit_wigner:Bprime_q2", "breit_wigner:Bprime_polynomial"], cost=1 + _L,
           bound="L = %d; m, m0, Gamma0, q, q0, d > 0 symbolic" % _L)(_mk_callee(_L))
+
+
+# ---------------------------------------------------------------------------------------------
+# kinematic stage, the part that IS proved: the real cal_angle on SYMBOLIC four-momenta (any frame) stores
+#   data['particle'][X]['m']  ==  sqrt((sum of the four-momenta of X's final-state content)^2)          (Minkowski)
+#   data['decay'][chain][vertex]['|q|2'] == lambda(m0^2, m1^2, m2^2) / (4 m0^2)  of those stored masses
+# for every particle and vertex of the three chains.  (The helicity-angle leaf stays with the bounded groups.)
+# ---------------------------------------------------------------------------------------------
+@group(["C04"], "amp.stage/kinematic_leaves", ["cal_angle:cal_angle_from_momentum", "cal_angle:add_mass", "cal_angle:add_relative_momentum", "cal_angle:struct_momentum",
+                                             "angle:LorentzVector.M", "angle:LorentzVector.M2", "amp.core:get_relative_p2"],
+       env="shim", kind="P", no_native=True, cost=3,
+       bound="spin-0 parent -> three spin-0 finals, three chains; four-momenta of the three final-state particles fully symbolic (time-like, E > 0), any frame",
+       assumes=["the dictionary keys are those of the real cal_angle on symbolic momenta (one execution path; tf.where branches are case-split under the precondition)",
+                "lemma (reverse triangle inequality, not machine-checked): sums of future-directed time-like four-vectors are time-like"])
+def kinematic_leaves(ctx):
+    tf, shim = ctx.tf, ctx.shim
+    import numpy
+
+    if not hasattr(numpy, "Inf"):
+        numpy.Inf = numpy.inf
+    sname = M.spinless_struct(_MSETS[0], (1, 2, 3))
+    st = M.STRUCTS[sname]
+    config = ctx.mod("config_loader").ConfigLoader(copy.deepcopy(M.build_config(sname)))
+    names = M.final_names(sname)
+
+    def smp(rng):
+        px, py, pz = [rng.uniform(-1, 1) for _ in range(3)]
+        m = rng.uniform(0.2, 1.0)
+        return [[math.sqrt(m * m + px * px + py * py + pz * pz), px, py, pz]]
+
+    P = {k: ctx.real("p" + k, (1, 4), sample=smp) for k in "BCD"}
+
+    def mink(a, b):
+        return a[:, 0] * b[:, 0] - a[:, 1] * b[:, 1] - a[:, 2] * b[:, 2] - a[:, 3] * b[:, 3]
+
+    for k in "BCD":
+        ctx.require(mink(P[k], P[k]) > 0.0)
+        ctx.require(P[k][:, 0] > 0.0)
+    # mathematical fact used as a lemma (listed as assumption): the sum of future-directed time-like vectors is time-like
+    for keys in ("BC", "BD", "CD", "BCD"):
+        tot = None
+        for k in keys:
+            tot = P[k] if tot is None else tot + P[k]
+        ctx.lemma(mink(tot, tot) > 0.0)
+    data = config.data.cal_angle({n: P["BCD"[i]] for i, n in enumerate(names)})
+    N = {k: M.nm(sname, k) for k in "ABCD"}
+    content = {N["A"]: "BCD", N["B"]: "B", N["C"]: "C", N["D"]: "D"}
+    for ck, (r, a, b, s_) in st["pairs"].items():
+        content["(%s, %s)" % (N[a], N[b])] = a + b
+        content["(%s, %s)" % (N[b], N[a])] = a + b
+
+    def psum(keys):
+        tot = None
+        for k in keys:
+            tot = P[k] if tot is None else tot + P[k]
+        return tot
+
+    mass = {}
+    for pobj, leaf in data["particle"].items():
+        keys = content[str(pobj)]
+        tot = psum(keys)
+        mass[str(pobj)] = tf.sqrt(mink(tot, tot))
+        ctx.eq("m[%s]" % keys, leaf["m"], mass[str(pobj)], clause="data['particle'][X]['m'] == sqrt(Minkowski square of the summed four-momenta of X = %s)" % keys)
+    seen = set()
+    for chain, dd in data["decay"].items():
+        for dec, x in dd.items():
+            if not (isinstance(x, dict) and "|q|2" in x):
+                continue
+            m0, m1, m2 = mass[str(dec.core)], mass[str(dec.outs[0])], mass[str(dec.outs[1])]
+            tag = "%s->%s+%s" % (content[str(dec.core)], content[str(dec.outs[0])], content[str(dec.outs[1])])
+            if tag in seen:
+                continue
+            seen.add(tag)
+            ctx.eq("q2[%s]" % tag, x["|q|2"], _breakup2(m0, m1, m2), clause="data['decay'][chain][%s]['|q|2'] == lambda(m0^2, m1^2, m2^2)/(4 m0^2) of the invariant masses" % tag)
